@@ -182,7 +182,11 @@ class _Interval:
             depth = self.depth
         a = self.a
         b = self.b
-        return (a + b) / 2 + (b - a) * coeff.xi[depth] / 2
+        points = (a + b) / 2 + (b - a) * coeff.xi[depth] / 2
+        # The end points exactly (xi[0] == -1 and xi[-1] == 1): an interval shares
+        # them with its parent, whose values are looked up by abscissa.
+        points[0], points[-1] = a, b
+        return points
 
     def refine(self) -> _Interval:
         self.depth += 1
